@@ -204,3 +204,32 @@ Definition check_meta (c : mcase) : verdict :=
 Definition mc p v a oa os oe es ee sv rv sa la :=
   {| mc_pfx := p; mc_vars := v; mc_all := a; mc_okA := oa; mc_okS := os; mc_okE := oe; mc_eqAS := es; mc_eqAE := ee;
      mc_split_valid := sv; mc_rest_valid := rv; mc_schema_all := sa; mc_loader_all := la |}.
+
+(* ------------------------------------------------------------------ stream "seq" *)
+
+(** model-free: a SEQUENCE of 2-4 different loads through the real
+    config.NewConfiguration in one fresh process; per load the digest of the
+    canonical deep rendering of the decoded Configuration right after the load,
+    the digests of the same result looked at again after each later load, and
+    the same (file, environment) loaded ALONE in a fresh process, twice.
+    This is the conclusion of C20_history_independent on the observation
+    (C20/History.v is the model of why it holds for the code as it is).
+    v_corr : the two references of every load agree (a load alone is stable)
+    v_prop : every load succeeds iff it does alone and renders as alone (the n-th
+             load inherits nothing); every later look at it renders the same
+             (earlier results do not change)
+    guards : none *)
+Record qload := {
+  q_ok : bool; q_digest : string; q_later : list string;
+  q_ref_ok : bool; q_ref : string; q_ref2_ok : bool; q_ref2 : string }.
+
+Definition ql a b c d e f g :=
+  {| q_ok := a; q_digest := b; q_later := c; q_ref_ok := d; q_ref := e; q_ref2_ok := f; q_ref2 := g |}.
+
+Definition check_seq (c : list qload) : verdict :=
+  {| v_corr := forallb (fun l => Bool.eqb (q_ref_ok l) (q_ref2_ok l) && String.eqb (q_ref l) (q_ref2 l)) c;
+     v_prop := forallb (fun l => Bool.eqb (q_ok l) (q_ref_ok l) && String.eqb (q_digest l) (q_ref l) &&
+                                 forallb (String.eqb (q_digest l)) (q_later l)) c;
+     v_guards := [] |}.
+
+Definition qc (l : list qload) : list qload := l.
